@@ -268,6 +268,17 @@ theorem fee_verifyTxs_spec (env : Env) (cfg : Cfg) (l : Ledger) (b : Block) (pre
           omega
         · simpa [List.filter_cons, hr'] using h4
 
+/-- a block dated 0 is never accepted -/
+theorem fee_verifyBlock_ts_ne_zero {env : Env} {cfg : Cfg} {l : Ledger} {b : Block} {prevTs now : Int}
+    (h : verifyBlock env cfg l b prevTs now = .ok ()) : b.ts ≠ 0 := by
+  unfold verifyBlock at h
+  by_cases c1 : b.ts ≠ prevTs + cfg.interval
+  · rw [if_pos c1] at h; cases h
+  rw [if_neg c1] at h
+  by_cases c0 : (b.ts == 0) = true
+  · rw [if_pos c0] at h; cases h
+  · simpa using c0
+
 /-- everything a successful `verifyBlock` establishes -/
 theorem fee_verifyBlock_ok {env : Env} {cfg : Cfg} {l : Ledger} {b : Block} {prevTs now : Int}
     (h : verifyBlock env cfg l b prevTs now = .ok ()) :
@@ -279,6 +290,9 @@ theorem fee_verifyBlock_ok {env : Env} {cfg : Cfg} {l : Ledger} {b : Block} {pre
   by_cases c1 : b.ts ≠ prevTs + cfg.interval
   · rw [if_pos c1] at h; cases h
   rw [if_neg c1] at h
+  by_cases c0 : (b.ts == 0) = true
+  · rw [if_pos c0] at h; cases h
+  rw [if_neg c0] at h
   by_cases c2 : b.ts > now
   · rw [if_pos c2] at h; cases h
   rw [if_neg c2] at h
